@@ -358,6 +358,7 @@ def run_schedule(schedule, out=(), err=(), in_script=None, in_tty=False, pty=Fal
                     obs["result"] = ("raise", type(e).__name__, res.stdout if res is not None else None,
                                      res.stderr if res is not None else None, res.exited if res is not None else None)
                 env.main_returned = True
+                sched.trace.append(("main", "returned"))
                 sched.done("main")
 
             mt = threading.Thread(target=main, daemon=True)
@@ -378,6 +379,7 @@ def run_schedule(schedule, out=(), err=(), in_script=None, in_tty=False, pty=Fal
                         sched.step(tok)
                 else:
                     env.act(tok)
+                    sched.trace.append(("env", tok))
             # give main a moment to record its outcome if the schedule drove it to the end
             t0 = _time.time()
             while "main" not in sched.finished and mt.is_alive() and _time.time() - t0 < 0.02:
@@ -396,6 +398,7 @@ def run_schedule(schedule, out=(), err=(), in_script=None, in_tty=False, pty=Fal
                 if a in expected and a not in sched.finished:
                     alive.append(a)
             obs["alive"] = alive
+            obs["trace"] = ["%s:%s" % t for t in sched.trace]
             obs["in_remaining"] = len(ins.script) if ins else None
             obs["written"] = (env.written["out"], env.written["err"])
             obs["timer_state"] = getattr(getattr(r, "_timer", None), "state", None)
